@@ -1,8 +1,12 @@
 import MithrilModel.Proto
 import MithrilModel.Handlers.C00
+import MithrilModel.Handlers.C01
+import MithrilModel.Handlers.C02
 import MithrilModel.Handlers.C08
 import MithrilModel.Handlers.C09
+import MithrilModel.Handlers.C10
 import MithrilModel.Handlers.C12
+import MithrilModel.Handlers.C14
 import MithrilModel.Handlers.C17
 import MithrilModel.Handlers.C18
 import MithrilModel.Handlers.C20
@@ -13,9 +17,13 @@ def dispatch (line : String) : String :=
   | some r =>
     let h : Option String :=
       if r.op.startsWith "c00." then Handlers.C00.handle r
+      else if r.op.startsWith "c01." then Handlers.C01.handle r
+      else if r.op.startsWith "c02." then Handlers.C02.handle r
       else if r.op.startsWith "c08." then Handlers.C08.handle r
       else if r.op.startsWith "c09." then Handlers.C09.handle r
+      else if r.op.startsWith "c10." then Handlers.C10.handle r
       else if r.op.startsWith "c12." then Handlers.C12.handle r
+      else if r.op.startsWith "c14." then Handlers.C14.handle r
       else if r.op.startsWith "c17." then Handlers.C17.handle r
       else if r.op.startsWith "c18." then Handlers.C18.handle r
       else if r.op.startsWith "c20." then Handlers.C20.handle r
